@@ -7,6 +7,24 @@ ID = "C09"
 PROPERTIES_V = "theories/Properties/C09.v"
 CASE_IMPORTS = "From GV Require Import Prelude.Base Model.Ws Model.WsCheck."
 ALLOWED_AXIOMS: list = []
+REFUTED = []
+PARTIAL = ["C09_step_frame (unconditional footprint; for Move/Reopen the sharp footprint needs Rep: C09_step_frame_rep / C09_step_frame_run)"]
+LEVEL_TEXT = ("Unbounded Coq frame theorems: for EVERY state and EVERY single operation, each flat node outside the operation's footprint (target, parents left/joined, nodes created/deleted, "
+              "swept dead nodes) is identical before and after, and the Root link is never rewritten (C09_step_frame, C09_step_rootlink); in every state reached by a fresh history a move rewrites "
+              "only the two parents' child lists and close+open rewrites nothing except deleting dead groups (C09_step_frame_run). Types and the project header are outside the Coq model: "
+              "the oracle digests every stored node (entities, types, header) of the real file before and after each op.")
+TRUSTED = [
+    "Coq 8.16.1 kernel + vm_compute (refutation witnesses, correspondence evaluation); Print Assumptions: closed under the global context for every theorem",
+    "hand-written model coq/theories/Model/Ws.v (memory tree + geoh5 file as a link graph with addresses) of Workspace.{create_entity, register, save_entity, update_attribute, remove_entity, remove_recursively, remove_children, remove_none_referents, close, open/fetch_or_create_root/fetch_children/load_entity}, Entity.parent setter, EntityContainer/ObjectBase.{add_children, remove_children}, H5Writer.{save_entity, write_entity, write_to_parent, remove_child, remove_entity, update_field/write_attributes/write_array_attribute/write_data_values}, H5Reader.{fetch_attributes, fetch_children}; tied to the code by comparing, after EVERY operation of generated histories, the live tree and a raw h5py dump of the file with the model (vm_compute)",
+    "modelled classes: RootGroup/ContainerGroup, Points, FloatData (one array token each); property groups, types, copies, other classes and concatenated drillholes are outside the Coq model and reach the check through the implementation-side oracle streams only",
+    "CPython/weakref/gc: the driver drops its references and runs gc.collect() after every operation, so 'dead' = 'not reachable from the root'; GC placement is represented by the explicit Sweep (listing getter) operations of the history",
+    "h5py/HDF5 behaviour (hard links = same object address, member iteration by name, attribute and dataset storage) is observed, not verified",
+    "tools/props/wsmodel.py (history generator, driver, canonicalisation of identifiers uuid.UUID(int=n+1) <-> n, raw dump, node digests, structural validator) and tools/props/wsext.py (extended oracle-only histories)",
+]
+ASSUMPTIONS = [
+    "operands are entities currently in the tree (no use-after-remove), identifiers are supplied explicitly so that model and code name entities alike",
+    "uuid4 never collides (fresh identifiers)",
+]
 DRIVE_TIMEOUT = 2400
 RULE = ("random API histories as for C01; after EVERY single op a digest of every stored node (entity attributes, datasets, "
         "type link, property-group block, child link names and addresses; every type node; the project header) is taken "
